@@ -77,6 +77,10 @@ type Conn struct {
 type FlowSpec struct {
 	Start int    `json:"start"`
 	Conns []Conn `json:"conns"`
+	// N > 1: the flow's embedded BaseNode is replaced by one with a retry budget, so a
+	// failing flow is re-run from its start node up to N times (C02: "all node kinds").
+	N      int `json:"n,omitempty"`
+	WaitMs int `json:"wait_ms,omitempty"`
 }
 
 // NodeSpec is a leaf or a flow; a flow may only reference nodes with a smaller index.
@@ -366,6 +370,9 @@ func newWfExec(sc *WF) *wfExec {
 					to = x.nodes[c.To]
 				}
 				f.Connect(x.nodes[c.From], flyt.Action(c.Action), to)
+			}
+			if ns.Flow.N > 1 {
+				f.BaseNode = flyt.NewBaseNode(flyt.WithMaxRetries(ns.Flow.N), flyt.WithWait(time.Duration(ns.Flow.WaitMs)*time.Millisecond))
 			}
 			x.nodes[i] = f
 		}
@@ -783,6 +790,20 @@ func (m *wfModel) node(i int) (string, bool) {
 		return m.leaf(b, m.sc.Nodes[b].Leaf)
 	}
 	f := ns.Flow
+	budget := f.N
+	if budget < 1 {
+		budget = 1
+	}
+	for attempt := 0; attempt < budget; attempt++ {
+		if act, ok := m.flowPath(f); ok {
+			return act, true
+		}
+	}
+	return "", false
+}
+
+// flowPath walks one attempt of a flow from its start node.
+func (m *wfModel) flowPath(f *FlowSpec) (string, bool) {
 	cur := f.Start
 	last := ""
 	for {
